@@ -237,18 +237,9 @@ def run(chk):
                         den = ZERO
                         for p_ in parts:
                             den = red(den, val(p_[1:-1]))
-                        order = [p_[1:-1] for p_ in parts]
-                        if len(set(names)) == len(names) and order != [nm for nm in names if nm in order]:
-                            v, d = REFUTED, "terms are printed out of order: %r" % txt
-                            break
                     if den != obj:
                         v, d = REFUTED, "%s of terms %s prints %r, which denotes %s while value() is %s" % (short, names, txt, B.describe(den), B.describe(obj))
                         break
-                    if not zeros and not ones:
-                        want = sep.join("<%s>" % nm for nm in names) if L else "0"
-                        if txt != want:
-                            v, d = REFUTED, "%s of terms %s prints %r, expected %r" % (short, names, txt, want)
-                            break
                 if v == PROVED and nret == 0:
                     v, d = UNDECIDED, "no returning path"
             except Undecided as e:
